@@ -877,6 +877,11 @@ def _maybe_empty_container(s, loc):
 def _state_entails_fact(s, f):
     if f[0] in ("iv", "var") and _in_empty_container(s, f[1]):
         return True
+    # a fact about the payload of an enum variant that s rules out says nothing about s
+    if f[0] in ("iv", "var") and s._absent(f[1]):
+        return True
+    if f[0] in ("le", "eq") and any(s._absent(v) for v in f[1].terms):
+        return True
     if f[0] == "iv":
         leaf = s.leaf(f[1])
         return leaf is not None and f[2] <= leaf.lo and leaf.hi <= f[3]
